@@ -167,6 +167,7 @@ type VerifRequest struct {
 	Orders    [][]int  ` + "`json:\"orders\"`" + `
 	Workers   int      ` + "`json:\"workers\"`" + `
 	Rounds    int      ` + "`json:\"rounds\"`" + `
+	Orig      []int    ` + "`json:\"orig,omitempty\"`" + ` // concurrent leg: position of each case in the full case list
 }
 
 type VerifResponse struct {
@@ -400,12 +401,15 @@ func verifModes(req *VerifRequest, resp *VerifResponse) {
 			if m == "concurrent" {
 				// only inputs that terminate sequentially are run concurrently (no step limit there)
 				var cs []string
+				var orig []int
 				for k, c := range req.Cases {
 					if resp.Results[0][k].Verdict != "steplimit" {
 						cs = append(cs, c)
+						orig = append(orig, k)
 					}
 				}
 				r2.Cases = cs
+				r2.Orig = orig
 				if len(cs) == 0 {
 					resp.Notes = append(resp.Notes, "concurrent:0")
 					continue
@@ -529,7 +533,10 @@ func verifModes(req *VerifRequest, resp *VerifResponse) {
 							c.ParserInit()
 						}
 						res := verifParseCtx(c, kk, req.Cases[kk], false)
-						res.Fetched = kk
+						res.Fetched = kk // the case number, for the comparison with the sequential result
+						if len(req.Orig) == len(req.Cases) {
+							res.Fetched = req.Orig[kk]
+						}
 						res.Msg = req.Cases[kk] + "|" + res.Msg
 						out = append(out, res)
 					}
